@@ -194,6 +194,11 @@ class KeyedList(Generic[ItemType, KeyType], MutableSequence, KeyedBase):  # pyli
         self._list.insert(index, item)
         self._dict[key] = item
 
+    def reverse(self):
+        # The `MutableSequence` mixin swaps items pairwise through
+        # `__setitem__`, which (rightly) rejects the transient duplicate key.
+        self._list.reverse()
+
     def __contains__(self, value):
         try:
             if value in self._dict:
